@@ -534,6 +534,7 @@ impl Property for C16 {
                 ctx.out.traces += 1;
                 ctx.out.states += 1;
                 ctx.out.transitions += depth as u64;
+                ctx.begin(|| hist_json(&tys, &hist));
                 match run_hist(&tys, &hist, &mut f) {
                     Ok(()) => {
                         if f.failed_cast_of_twin {
